@@ -26,6 +26,11 @@ struct verif_in {
 	int readlink_ret[NL], target_same[NL];
 	int mk_ret, rm_ret, rm_enoent, create_ret;
 	unsigned e0, u0, r0;
+	/* empty files / dirs */
+	int nelem;
+	int64_t esize[NL]; unsigned eflag[NL];
+	int e_stat_ret[NL], e_kind_ok[NL], e_size0[NL];
+	int e_open_ret, e_fmtime_ret, e_close_ret, e_mkdir_ret;
 };
 VERIF_DECLARE_IN
 
@@ -189,5 +194,151 @@ void h_check_links(void)
 	VERIF_ASSERT(bailed == stopped, "only a failing operation stops the command");
 	VERIF_CANARY();
 }
+
+
+/*
+ * Empty files and empty directories at the end of check / fix (regions "for each empty file in the disk" and "for each dir in
+ * the disk" of state_check_process): only recorded files of size ZERO are looked at here (the create call truncates!), excluded
+ * elements are skipped, check creates nothing; fix re-creates a missing / wrong empty file with its recorded time and a
+ * missing directory (with its ancestors).
+ */
+#ifdef VERIF_EMPTY_REGIONS
+static struct snapraid_file EF0, EF1;
+static struct snapraid_file *const EF[NL] = { &EF0, &EF1 };
+static struct snapraid_dir ED0, ED1;
+static struct snapraid_dir *const ED[NL] = { &ED0, &ED1 };
+static int g_ecur = -1;
+static unsigned g_e_mk[NL], g_e_open[NL], g_e_fmtime[NL], g_e_mkdir[NL];
+static int g_e_oflags[NL];
+static int64_t g_e_sec[NL]; static int g_e_nsec[NL];
+static int e_file_flag_has(const struct snapraid_file *f, unsigned mask) { int k; for (k = 0; k < NL; ++k) if (f == EF[k]) g_ecur = k; return (f->flag & mask) == mask; }
+static int e_dir_flag_has(const struct snapraid_dir *d, unsigned mask) { int k; for (k = 0; k < NL; ++k) if (d == ED[k]) g_ecur = k; return (d->flag & mask) == mask; }
+static int e_stat(const char *path, struct stat *st)
+{
+	int k = g_ecur;
+	(void)path;
+	if (IN.e_stat_ret[k]) { errno = ENOENT; return -1; }
+	st->st_mode = IN.e_kind_ok[k] ? (g_ecur >= 0 && 0 ? 0 : 0) : 0;
+	return 0;
+}
+static int g_want_dir;
+static int e_stat2(const char *path, struct stat *st)
+{
+	int k = g_ecur;
+	(void)path;
+	if (IN.e_stat_ret[k]) { errno = ENOENT; return -1; }
+	if (g_want_dir)
+		st->st_mode = IN.e_kind_ok[k] ? S_IFDIR : S_IFREG;
+	else
+		st->st_mode = IN.e_kind_ok[k] ? S_IFREG : S_IFDIR;
+	st->st_size = IN.e_size0[k] ? 0 : 5;
+	return 0;
+}
+static int e_mkancestor(const char *path) { (void)path; ++g_e_mk[g_ecur]; return IN.mk_ret ? -1 : 0; }
+static int e_open(const char *path, int flags, ...) { (void)path; ++g_e_open[g_ecur]; g_e_oflags[g_ecur] = flags; return IN.e_open_ret ? -1 : 5; }
+static int e_fmtime(int fd, int64_t sec, int nsec) { (void)fd; ++g_e_fmtime[g_ecur]; g_e_sec[g_ecur] = sec; g_e_nsec[g_ecur] = nsec; return IN.e_fmtime_ret ? -1 : 0; }
+static int e_close(int fd) { (void)fd; return IN.e_close_ret ? -1 : 0; }
+static int e_mkdir(const char *path, mode_t mode) { (void)path; (void)mode; ++g_e_mkdir[g_ecur]; return IN.e_mkdir_ret ? -1 : 0; }
+
+#define pathprint l_pathprint
+#define stat(p, s) e_stat2(p, s)
+#define mkancestor e_mkancestor
+#define open e_open
+#define fmtime e_fmtime
+#define close e_close
+#define mkdir e_mkdir
+#define esc_tag l_esc
+#define fmt_term l_fmt
+#define file_flag_has e_file_flag_has
+#define dir_flag_has e_dir_flag_has
+#include "region_check_emptyfiles.c"
+#include "region_check_dirs.c"
+#undef pathprint
+#undef stat
+#undef mkancestor
+#undef open
+#undef fmtime
+#undef close
+#undef mkdir
+#undef esc_tag
+#undef fmt_term
+#undef file_flag_has
+#undef dir_flag_has
+
+static void empty_setup(struct snapraid_handle *H)
+{
+	int k;
+	VERIF_ASSUME(IN.nelem >= 1 && IN.nelem <= NL);
+	VERIF_ASSUME(IN.e0 < 100000 && IN.u0 < 100000 && IN.r0 < 100000);
+	H[0].disk = &DK;
+	tommy_list_init(&DK.filelist);
+	tommy_list_init(&DK.dirlist);
+	for (k = 0; k < NL; ++k) {
+		VERIF_ASSUME(IN.esize[k] >= 0);
+		EF[k]->sub = SUBS[k]; EF[k]->size = IN.esize[k]; EF[k]->flag = IN.eflag[k] & FILE_IS_EXCLUDED; EF[k]->mtime_sec = 1000 + k; EF[k]->mtime_nsec = 7 + k;
+		ED[k]->sub = SUBS[k]; ED[k]->flag = IN.eflag[k] & FILE_IS_EXCLUDED;
+		g_e_mk[k] = g_e_open[k] = g_e_fmtime[k] = g_e_mkdir[k] = 0;
+		if (k < IN.nelem) {
+			tommy_list_insert_tail(&DK.filelist, &EF[k]->nodelist, EF[k]);
+			tommy_list_insert_tail(&DK.dirlist, &ED[k]->nodelist, ED[k]);
+		}
+	}
+	g_ecur = -1;
+}
+
+void h_check_emptyfiles(void)
+{
+	static struct snapraid_state ST;
+	static struct snapraid_handle H[1];
+	unsigned error, unrec, recov;
+	int bailed = 0, k, stopped = 0;
+	VERIF_INPUTS();
+	empty_setup(H);
+	g_want_dir = 0;
+	error = IN.e0; unrec = IN.u0; recov = IN.r0;
+	region_check_emptyfiles(&ST, IN.fix, H, 0, &error, &unrec, &recov, &bailed);
+	for (k = 0; k < NL; ++k) {
+		int considered = k < IN.nelem && IN.esize[k] == 0 && !(IN.eflag[k] & FILE_IS_EXCLUDED) && !stopped;
+		int wrong = IN.e_stat_ret[k] || !IN.e_kind_ok[k] || !IN.e_size0[k];
+		if (!considered || !IN.fix || !wrong) {
+			VERIF_ASSERT(g_e_open[k] == 0 && g_e_mk[k] == 0 && g_e_fmtime[k] == 0, "a file that is not empty in the record, is excluded, or is fine - and every file in check mode - is not created, truncated or re-timed here");
+			continue;
+		}
+		if (IN.mk_ret) { VERIF_ASSERT(g_e_open[k] == 0, "nothing is created below a directory that cannot be made"); stopped = 1; continue; }
+		VERIF_ASSERT(g_e_open[k] == 1 && (g_e_oflags[k] & O_CREAT), "a missing or wrong empty file is re-created");
+		if (IN.e_open_ret) { stopped = 1; continue; }
+		VERIF_ASSERT(g_e_fmtime[k] == 1 && g_e_sec[k] == 1000 + k && g_e_nsec[k] == 7 + k, "with its recorded modification time, seconds and nanoseconds");
+		if (IN.e_fmtime_ret || IN.e_close_ret) stopped = 1;
+	}
+	VERIF_ASSERT(bailed == stopped, "only a failing operation stops the command");
+	VERIF_CANARY();
+}
+
+void h_check_dirs(void)
+{
+	static struct snapraid_state ST;
+	static struct snapraid_handle H[1];
+	unsigned error, unrec, recov;
+	int bailed = 0, k, stopped = 0;
+	VERIF_INPUTS();
+	empty_setup(H);
+	g_want_dir = 1;
+	error = IN.e0; unrec = IN.u0; recov = IN.r0;
+	region_check_dirs(&ST, IN.fix, H, 0, &error, &unrec, &recov, &bailed);
+	for (k = 0; k < NL; ++k) {
+		int considered = k < IN.nelem && !(IN.eflag[k] & FILE_IS_EXCLUDED) && !stopped;
+		int wrong = IN.e_stat_ret[k] || !IN.e_kind_ok[k];
+		if (!considered || !IN.fix || !wrong) {
+			VERIF_ASSERT(g_e_mkdir[k] == 0 && g_e_mk[k] == 0, "an excluded or existing directory - and every directory in check mode - is not created");
+			continue;
+		}
+		if (IN.mk_ret) { VERIF_ASSERT(g_e_mkdir[k] == 0, "nothing is created below a directory that cannot be made"); stopped = 1; continue; }
+		VERIF_ASSERT(g_e_mkdir[k] == 1 && g_e_mk[k] == 1, "a missing recorded empty directory is re-created, ancestors first");
+		if (IN.e_mkdir_ret) stopped = 1;
+	}
+	VERIF_ASSERT(bailed == stopped, "only a failing operation stops the command");
+	VERIF_CANARY();
+}
+#endif
 
 #include "verif_tail.h"
